@@ -1498,6 +1498,11 @@ impl HashColumn {
 				tables.value[record.table.size_tier() as usize].validate_plan(record.index, log)?;
 			},
 			LogAction::InsertRefCount(record) => {
+				if tables.ref_count.is_none() {
+					// Only a damaged log can address the reference count table of a column that
+					// has none.
+					return Err(Error::Corruption("Unexpected log ref count action".to_string()))
+				}
 				if tables.get_ref_count().id == record.table {
 					tables.get_ref_count().validate_plan(record.index, log)?;
 				} else if let Some(table) = reindex
